@@ -137,6 +137,9 @@ func mkbmRuns(target int, id uint32) *roaring.Bitmap {
 		if per := two - one; per > 0 && uint64(target) > one+16 {
 			n = int((uint64(target)-16-one)/per) + 1
 		}
+		if n > 65000 {
+			n = 65000 // a bitmap has at most 65536 containers (row ids are 32 bits); larger targets get the largest such bitmap
+		}
 		bm := build(n)
 		for n > 1 && bm.GetSizeInBytes()+16 > uint64(target) {
 			n--
